@@ -45,7 +45,8 @@ Fixpoint pbrk_ok (failed : Z) (ops : list pop) (obs : list pobs) : bool :=
 
 Fixpoint tbrk_ok (failed : Z) (ops : list top) (obs : list seen_t) : bool :=
   match ops, obs with
-  | TAllow _ _ _ _ brk :: ops', OA _ b a :: obs' =>
+  | TAllow _ _ _ _ brk :: ops', OA _ b a :: obs'
+  | TAllowLate _ _ _ _ brk :: ops', OA _ b a :: obs' =>
     (brk || (brk_min_failed_calls <=? failed)) && tbrk_ok (if (b && negb a)%bool then failed + 1 else failed) ops' obs'
   | TAllowF _ _ _ _ (RErr _) :: ops', OA _ b a :: obs' =>
     tbrk_ok (if (b && negb a)%bool then failed + 1 else failed) ops' obs'
@@ -66,7 +67,9 @@ Fixpoint tagree (c : tcfg) (s : tstate) (ops : list top) (obs : list seen_t) : b
     | TAllowF i _ _ _ _, OA g b a, TR g' a' _
     | TAllowC i _ _ _, OA g b a, TR g' a' _ =>
       Bool.eqb g g' && Bool.eqb a a' && Bool.eqb b (alive_of s i)
-    | TAllow _ _ _ _ _, _, _ | TAllowF _ _ _ _ _, _, _ | TAllowC _ _ _ _, _, _ => false
+    | TAllowLate _ _ _ _ _, OA g _ a, TR g' a' _ =>      (* the flag was read earlier: not compared *)
+      Bool.eqb g g' && Bool.eqb a a'
+    | TAllow _ _ _ _ _, _, _ | TAllowF _ _ _ _ _, _, _ | TAllowC _ _ _ _, _, _ | TAllowLate _ _ _ _ _, _, _ => false
     | TPing i, OP a, TU => Bool.eqb a (alive_of s' i)
     | _, ON, TU => true
     | _, _, _ => false
@@ -122,6 +125,15 @@ Fixpoint token_walk (rt bs : Z) (b : bucket) (down : bool) (ops : list top) (obs
       let '(b', e) := bucket_take rt bs b (unix_s now) n in
       let '(ok, acc') := token_walk rt bs b' down ops' obs' acc in
       (Bool.eqb g e && after && ok, acc')
+    else token_walk rt bs b down ops' obs' (acc ++ [(i, (now * 1000000, n, g))])
+  | TAllowLate i now n _ brk :: ops', OA g _ after :: obs' =>
+    (* a concurrent call of an instance that had passed the flag: judged like any call that sends
+       its command - by the shared bucket if the command reaches a reachable store (it does not make
+       the instance fall back: the flag may already be off), by the local bound otherwise *)
+    if (negb down && brk)%bool then
+      let '(b', e) := bucket_take rt bs b (unix_s now) n in
+      let '(ok, acc') := token_walk rt bs b' down ops' obs' acc in
+      (Bool.eqb g e && ok, acc')
     else token_walk rt bs b down ops' obs' (acc ++ [(i, (now * 1000000, n, g))])
   | TAllowF i now n _ r :: ops', OA g before after :: obs' =>
     (* a faulted call: a reply that is no verdict of the script is never a grant by the store -
